@@ -14,11 +14,15 @@ import sys
 VERIF_DIR = os.path.dirname(os.path.dirname(os.path.abspath(__file__)))
 OUT_DIR = os.path.join(VERIF_DIR, "out")
 REPLAY_DIR = os.path.join(OUT_DIR, "replays")
-EVIDENCE_DIR = os.path.join(VERIF_DIR, "evidence")
+EVIDENCE_DIR = os.environ.get("VERIF_EVIDENCE_DIR") or os.path.join(VERIF_DIR, "evidence")
 KNOWN_FINDINGS = os.path.join(VERIF_DIR, "known_findings.json")
 
 PEST_SRC = os.path.abspath(os.environ.get("VERIF_PEST_SRC", "/repo/src"))
 PYTHON = os.environ.get("VERIF_PYTHON", "/venv/bin/python")
+if PEST_SRC != "/repo/src" and not os.environ.get("VERIF_EVIDENCE_DIR"):
+    # self-tests against scratch copies must never overwrite the evidence of /repo
+    EVIDENCE_DIR = os.path.join(OUT_DIR, "evidence-scratch")
+REPLAY_DIR = os.environ.get("VERIF_REPLAY_DIR") or REPLAY_DIR
 MAIN = os.path.join(VERIF_DIR, "vpest_main.py")
 
 EXIT_OK = 0
